@@ -666,7 +666,7 @@ class CouplingAnalysis:
                                  constant array!")
 
         # Add noise to destroy ties...
-        array += 1E-10 * numpy.random.rand(dim, T)
+        array = array + 1E-10 * numpy.random.rand(dim, T)
 
         dim_x = int(numpy.where(xyz == 0)[0][-1] + 1)
         dim_y = int(numpy.where(xyz == 1)[0][-1] + 1 - dim_x)
